@@ -1,380 +1,383 @@
 """C13 -- concurrent suites run every test once, deliver every event, terminate.
 
-Join / signal / abort discipline of ConcurrentTestSuite and
-ConcurrentStreamTestSuite, decided on the exceptional CFG.  Interleavings are
-not explored: the rules establish the discipline that makes them irrelevant.
+The worker wrapper and the coordinating run() of ConcurrentTestSuite and ConcurrentStreamTestSuite are
+interpreted abstractly (EffectDomain) against a model of their environment: sub-suites that return, crash
+or are interrupted; threads, queues and per-worker results as numbered symbolic objects; the completion /
+event queue as an oracle that replays a *schedule* of worker events.  Every rule is read off the ordered
+call log and the final outcome of those runs, for each schedule and for an interrupt delivered at each
+external call -- whatever helpers, loop forms or guard styles the code is organised into.  Real
+interleavings are not explored: the rules establish the discipline that makes them irrelevant.
 """
 
-import ast
-
-from ..astutil import attr_chain, dotted, norm, walk_shallow
-from ..cfg import handler_is_catch_all, handler_names, live_nodes, node_calls
+from .. import effects
+from ..absint import NONE, State
+from ..astutil import FUNC_TYPES
 from ..loader import AnalysisError
-from .common import TESTSUITE, cfg_of, has_kw, kw_value, nodes_calling, own_method
+from .common import TESTSUITE
 
 EXPLANATION = (
-    "Join/signal/abort discipline of testtools.testsuite.ConcurrentTestSuite and "
-    "ConcurrentStreamTestSuite on the exceptional CFG: R-WORKER-SIGNAL (every path out of the "
-    "sub-suite's run() in the worker, normal or exceptional, passes the completion signal), "
-    "R-BROKEN-RUNNER (run() sits under a handler for Exception that reports an ErrorHolder named "
-    "broken-runner with sys.exc_info() to the same per-worker result), R-RUN-ONCE (one Thread per "
-    "element of make_tests' iteration, target = the worker wrapper, which calls run() once), "
-    "R-REGISTER-BEFORE-START and R-JOIN-BEFORE-FORGET (bookkeeping stored before start(); the wait "
-    "loop runs while bookkeeping is non-empty and forgets an entry only together with join()), "
-    "R-ABORT-STOPS-ALL (thread creation and the wait loop lie in a try whose catch-all handler "
-    "stops every remaining per-worker result and re-raises), R-PIPELINE (one shared Semaphore(1) / "
-    "the ExtendedToStream(Timestamping(StreamToQueue)) pipeline per worker; the dequeue loop forwards "
-    "every status event in dequeue order, forgets a worker only on its stopTestRun event and rejects "
-    "unknown events). Schedules themselves and liveness of user code are not decided."
+    "Join/signal/abort discipline of testtools.testsuite.ConcurrentTestSuite and ConcurrentStreamTestSuite, "
+    "decided on abstract runs (effect logs) of the worker wrapper and of the coordinating run(). Worker: for a "
+    "sub-suite that returns, raises an Exception, or is interrupted, and a holder whose run() may itself raise: "
+    "R-RUN-ONCE (run() called exactly once with the per-worker result), R-WORKER-SIGNAL (exactly one completion "
+    "signal on every path, normal or exceptional, after run(), and nothing sent to the result after it), "
+    "R-BROKEN-RUNNER (an Exception is contained and reported through ErrorHolder('broken-runner...', "
+    "error=sys.exc_info()).run(<the same result>); an interrupt still propagates). Coordinator: make_tests yields "
+    "two sub-suites; threads / queue / semaphore / per-worker results are numbered symbolic objects; queue.get() "
+    "replays every schedule of a table of worker-event schedules and raises Deadlock when the coordinator waits "
+    "for more events than the workers send: R-RUN-ONCE (one Thread per sub-suite, target = the worker wrapper, "
+    "args carry that sub-suite, each started once), R-JOIN-BEFORE-FORGET (run() returns only after every started "
+    "thread was joined and never waits for an event that cannot come), R-REGISTER-BEFORE-START and "
+    "R-ABORT-STOPS-ALL (an interrupt delivered at each external call of each schedule -- including start() -- "
+    "propagates, after stop() was called on the per-worker result of every thread started and not yet joined), "
+    "R-PIPELINE (one shared Semaphore(1) and queue; per-worker ThreadsafeForwardingResult(result, semaphore) "
+    "through _wrap_result(., index) / ExtendedToStream(Timestamping(StreamToQueue(queue, route))); status events "
+    "forwarded unchanged in dequeue order, startTestRun filtered, a worker forgotten only on its own stopTestRun, "
+    "unknown events rejected). Schedules of real threads and liveness of user code are not decided."
 )
 
+SUB, PR, Q, ROUTE = ("wobj", "sub"), ("wobj", "pr"), ("wobj", "q"), ("sym", "route")
+EXCINFO = ("sym", "exc-info")
+CRASH, INTERRUPT = ("exc", "RunnerCrash"), ("exc", "KeyboardInterrupt")
+A, B = ("sym", "suite-A"), ("sym", "suite-B")
+RC_A, RC_B = ("sym", "route-A"), ("sym", "route-B")
+RESULT = ("wobj", "res")
+WORKER = ("sym", "worker-wrapper")
+CTORS = {"Queue", "queue.Queue", "threading.Semaphore", "Semaphore", "threading.Thread", "Thread", "testtools.ThreadsafeForwardingResult",
+         "ThreadsafeForwardingResult", "self._wrap_result", "testtools.StreamToQueue", "StreamToQueue", "testtools.ExtendedToStreamDecorator",
+         "ExtendedToStreamDecorator", "testtools.TimestampingStreamResult", "TimestampingStreamResult"}
 
-def _loop_over(func, name):
-    for n in walk_shallow(func, include_self=False):
-        if isinstance(n, ast.For) and dotted(n.iter) == name:
-            return n
-        if isinstance(n, ast.For) and isinstance(n.iter, ast.Call) and dotted(n.iter.func) == "enumerate" and n.iter.args and dotted(n.iter.args[0]) == name:
-            return n
+
+def _method(ctx, clsname, name):
+    cls = ctx.classes.get(TESTSUITE, clsname)
+    owner, f = ctx.classes.resolve_method(cls, name)
+    if not isinstance(f, FUNC_TYPES) or owner is None or owner.external:
+        raise AnalysisError(f"anchor vanished: {clsname}.{name}")
+    return cls, f
+
+
+def _is_new(v, name=None):
+    return isinstance(v, tuple) and v[:1] == ("new",) and (name is None or v[1] == name)
+
+
+# ------------------------------------------------------------------------------------------------ worker wrapper
+def check_worker(ctx, clsname, stream):
+    cls, worker = _method(ctx, clsname, "_run_test")
+    params = [a.arg for a in worker.args.args[1:]]
+    if len(params) != 3:
+        raise AnalysisError(f"anchor vanished: {clsname}._run_test no longer takes (test, result, queue / route code)")
+    argv = {params[0]: SUB, params[1]: PR, params[2]: ROUTE if stream else Q}
+
+    def oracle(n, pos, kw):
+        if n == "sub.run":
+            return [("val", NONE), ("exc", CRASH), ("exc", INTERRUPT)]
+        if n == "<ErrorHolder>.run":
+            return [("val", NONE), ("exc", ("exc", "HolderCrash"))]
+        if n.startswith(("pr.", "q.")):
+            return [("val", NONE)]
+        return None
+
+    dom = effects.EffectDomain(ctx.classes, attrs={"self": ("self",)}, results={"sys.exc_info": [EXCINFO]}, oracle=oracle,
+                               ctors={"testtools.ErrorHolder", "ErrorHolder"}, log_cap=16)
+    res = effects.run(ctx, dom, worker, cls, argv, state=State(), depth=4)
+    Qn = f"{TESTSUITE}:{clsname}._run_test"
+    sig_name, sig_pos, sig_txt = ("pr.stopTestRun", (), "stopTestRun() on the per-worker result") if stream else ("q.put", (SUB,), "queue.put(<the sub-suite>)")
+    once, signal, late, contained, reported, same_result, interrupts = set(), set(), set(), set(), set(), set(), set()
+    seen = set()
+    for r in res:
+        log = r.state.get("ev.calls", ())
+        names = [e[0] for e in log]
+        runs = [i for i, e in enumerate(log) if e[0] == "sub.run"]
+        if len(runs) != 1:
+            once.add(f"the sub-suite's run() is called {len(runs)} times on one path")
+            continue
+        ri = runs[0]
+        fate = log[ri][3]   # ok / RunnerCrash / KeyboardInterrupt
+        seen.add(fate)
+        if log[ri][1] != (PR,):
+            once.add("the sub-suite does not run against the per-worker result it was given")
+        sigs = [i for i, e in enumerate(log) if e[0] == sig_name and e[1] == sig_pos]
+        how = {"ok": "returns", "RunnerCrash": "raises an Exception", "KeyboardInterrupt": "is interrupted"}[fate] + (" and the broken-runner holder raises too" if "HolderCrash" in [e[3] for e in log] else "")
+        if len(sigs) != 1 or sigs[0] < ri:
+            signal.add(f"when the sub-suite's run() {how}, {sig_txt} is sent {len(sigs)} times after it: the coordinating thread would wait for ever (or forget the worker twice)")
+        elif any(n.startswith(("pr.", "<ErrorHolder>.")) for n in names[sigs[0] + 1:]):
+            late.add(f"when run() {how} the worker still talks to its result after signalling completion (the event may be dropped)")
+        holders = [e for e in log if e[0] == "<ErrorHolder>.run"]
+        if fate == "RunnerCrash":
+            if not holders:
+                reported.add("a sub-suite whose run() raises is not reported through an ErrorHolder: its tests are lost silently")
+            for h in holders:
+                obj = h[1][0]
+                first = obj[2][0] if obj[2] else dict(obj[3]).get("test_id")
+                text = first[1] if isinstance(first, tuple) and first[:1] == ("const",) else (first[1][1] if isinstance(first, tuple) and first[:1] == ("concat",) and first[1][:1] == ("const",) else "")
+                err = dict(obj[3]).get("error", obj[2][1] if len(obj[2]) > 1 else None)
+                if not (isinstance(text, str) and text.startswith("broken-runner")) or err != EXCINFO:
+                    reported.add(f"the crash is reported as ErrorHolder({first!r}, error={err!r}) instead of ErrorHolder('broken-runner...', error=sys.exc_info())")
+                if h[1][1:] != (PR,):
+                    same_result.add("the broken-runner holder is not run against the worker's own result")
+            if r.kind == "exc" and r.value == CRASH:
+                contained.add("an Exception raised by the sub-suite's run() escapes the worker: the thread dies with a traceback and the tests are lost")
+        elif holders:
+            reported.add(f"a broken-runner error is reported although run() {how}")
+        if fate == "KeyboardInterrupt" and not (r.kind == "exc" and r.value == INTERRUPT):
+            interrupts.add("an interrupt of the sub-suite is swallowed by the worker")
+    if seen != {"ok", "RunnerCrash", "KeyboardInterrupt"}:
+        once.add(f"the model could not follow the sub-suite's run() through return / crash / interrupt (saw {sorted(seen)})")
+
+    def chk(rule, name, problems):
+        ctx.check(rule, f"{clsname}._run_test: {name}", worker, not problems, "; ".join(sorted(problems)), examined=len(res), construct=f"{Qn}::{name}")
+
+    chk("R-RUN-ONCE", "sub-suite run() called exactly once against the per-worker result", once)
+    chk("R-WORKER-SIGNAL", "completion signal exactly once on every path out of run()", signal)
+    chk("R-WORKER-SIGNAL", "no event emitted after the completion signal", late)
+    chk("R-BROKEN-RUNNER", "an Exception from run() is contained", contained)
+    chk("R-BROKEN-RUNNER", "crash reported as broken-runner ErrorHolder with sys.exc_info()", reported)
+    chk("R-BROKEN-RUNNER", "holder run against the same per-worker result", same_result)
+    chk("R-BROKEN-RUNNER", "an interrupt is not swallowed", interrupts)
+
+
+# ------------------------------------------------------------------------------------------------ coordinator
+def _thread_parts(obj):
+    """(target, args tuple) of a symbolic Thread(...) object."""
+    pos, kw = obj[2], dict(obj[3])
+    target = kw.get("target", pos[1] if len(pos) > 1 else None)
+    args = kw.get("args", pos[3] if len(pos) > 3 else None)
+    return target, (tuple(args[1:]) if isinstance(args, tuple) and args[:1] == ("tuple",) else None)
+
+
+def _find_new(v, name):
+    """First nested symbolic object of the given constructor inside ``v``."""
+    if _is_new(v, name):
+        return v
+    if isinstance(v, tuple):
+        for x in v:
+            got = _find_new(x, name)
+            if got is not None:
+                return got
     return None
 
 
-def _contains(outer, inner):
-    return any(x is inner for x in ast.walk(outer))
+def _status_event(i, n):
+    return ("kwdict", (("event", ("const", "status")), ("test_id", ("sym", f"id-{i}-{n}")), ("test_status", ("const", "success")), ("route_code", ("sym", f"rc-{i}"))))
 
 
-def check_suite(ctx, clsname, stream):
-    cls = ctx.classes.get(TESTSUITE, clsname)
-    run_f = own_method(ctx, TESTSUITE, clsname, "run")
-    worker = own_method(ctx, TESTSUITE, clsname, "_run_test")
-    Q = f"{TESTSUITE}:{clsname}"
+# schedules of the event queue: (kind, worker index [, serial])
+PLAIN_SCHEDULES = [[("done", 0), ("done", 1)], [("done", 1), ("done", 0)]]
+STREAM_SCHEDULES = [
+    [("start", 0), ("start", 1), ("status", 0, 1), ("status", 1, 1), ("stop", 1), ("status", 0, 2), ("stop", 0)],
+    [("start", 0), ("status", 0, 1), ("stop", 0), ("start", 1), ("status", 1, 1), ("stop", 1)],
+    [("start", 1), ("stop", 1), ("start", 0), ("stop", 0)],
+]
 
-    def chk(rule, name, ok, msg, node=None, path=None, fn="run"):
-        ctx.check(rule, f"{clsname}.{fn}: {name}", node if node is not None else (run_f if fn == "run" else worker),
-                  bool(ok), msg, path=path, construct=f"{Q}.{fn}::{name}")
 
-    # ---------------------------------------------------------------- worker wrapper
-    wcfg = cfg_of(ctx, worker)
-    wlive = live_nodes(wcfg)
-    wparams = [a.arg for a in worker.args.args[1:]]
-    test_p, res_p = wparams[0], wparams[1]
-    run_nodes = nodes_calling(wcfg, lambda c: dotted(c.func) == f"{test_p}.run", wlive)
-    chk("R-RUN-ONCE", "sub-suite run() called exactly once", len(run_nodes) == 1,
-        f"expected exactly one {test_p}.run(...) call, found {len(run_nodes)}", fn="_run_test")
-    if len(run_nodes) != 1:
-        raise AnalysisError(f"anchor vanished: {clsname}._run_test no longer calls {test_p}.run once")
-    rn = run_nodes[0]
-    rcall = [c for c in node_calls(wcfg.nodes[rn]) if dotted(c.func) == f"{test_p}.run"][0]
-    chk("R-RUN-ONCE", "sub-suite runs against the per-worker result", rcall.args and dotted(rcall.args[0]) == res_p,
-        f"{norm(rcall)} does not receive the per-worker result {res_p}", node=rcall, fn="_run_test")
-    in_loop = any(isinstance(p, (ast.For, ast.While)) for p in _ancestors(rcall, worker))
-    chk("R-RUN-ONCE", "run() not inside a loop", not in_loop, "the sub-suite's run() is inside a loop", fn="_run_test")
-    if stream:
-        signal = lambda c: dotted(c.func) == f"{res_p}.stopTestRun"
-        sig_txt = f"{res_p}.stopTestRun()"
-    else:
-        q_p = wparams[2]
-        signal = lambda c: dotted(c.func) == f"{q_p}.put" and c.args and dotted(c.args[0]) == test_p
-        sig_txt = f"{q_p}.put({test_p})"
-    sig_nodes = nodes_calling(wcfg, signal, wlive)
-    esc = wcfg.escape_path(wcfg.after(rn, exclude=()), set(sig_nodes))
-    chk("R-WORKER-SIGNAL", "completion signal on every path out of run()", bool(sig_nodes) and esc is None,
-        f"a path leaves {test_p}.run() without {sig_txt}: the coordinating thread would wait for ever",
-        path=wcfg.describe_path(esc) if esc else None, fn="_run_test")
-    # signal is the last thing: nothing is sent to the result after it
-    after_sig = set()
-    for s in sig_nodes:
-        after_sig |= set(wcfg.reach(wcfg.after(s)))
-    late = [n for n in after_sig if any(dotted(c.func) and dotted(c.func).startswith(res_p + ".") for c in node_calls(wcfg.nodes[n])) and n not in sig_nodes]
-    chk("R-WORKER-SIGNAL", "no event emitted after the completion signal", not late,
-        "the worker talks to its result after signalling completion (the event may be dropped)", fn="_run_test")
-    # broken runner
-    tries = [p for p in _ancestors(rcall, worker) if isinstance(p, ast.Try) and _contains_in_body(p, rcall)]
-    handler = None
-    for t in tries:
-        for h in t.handlers:
-            names = handler_names(h)
-            if any(n.split(".")[-1] in ("Exception", "BaseException", "<bare>") for n in names):
-                handler = h
-                break
-        if handler:
-            break
-    chk("R-BROKEN-RUNNER", "run() guarded by a handler for Exception", handler is not None,
-        "a sub-suite whose run() raises is no longer caught: the worker dies and its tests are lost", fn="_run_test")
-    if handler is not None:
-        holder = None
-        for c in walk_shallow(handler):
-            if isinstance(c, ast.Call) and (dotted(c.func) or "").split(".")[-1] == "ErrorHolder":
-                holder = c
-        ok_id = ok_err = ok_run = False
-        if holder is not None:
-            idarg = holder.args[0] if holder.args else kw_value(holder, "test_id")
-            text = ""
-            if isinstance(idarg, ast.Constant) and isinstance(idarg.value, str):
-                text = idarg.value
-            elif isinstance(idarg, ast.JoinedStr) and idarg.values and isinstance(idarg.values[0], ast.Constant):
-                text = idarg.values[0].value
-            ok_id = text.startswith("broken-runner")
-            err = kw_value(holder, "error") or (holder.args[1] if len(holder.args) > 1 else None)
-            ok_err = isinstance(err, ast.Call) and dotted(err.func) == "sys.exc_info"
-            # the holder is run against the same per-worker result
-            var = None
-            p = getattr(holder, "_parent", None)
-            if isinstance(p, ast.Assign) and isinstance(p.targets[0], ast.Name):
-                var = p.targets[0].id
-            for c in walk_shallow(handler):
-                if isinstance(c, ast.Call) and isinstance(c.func, ast.Attribute) and c.func.attr == "run" and c.args and dotted(c.args[0]) == res_p:
-                    if (var and dotted(c.func.value) == var) or c.func.value is holder:
-                        ok_run = True
-        chk("R-BROKEN-RUNNER", "crash reported as broken-runner ErrorHolder with sys.exc_info()", ok_id and ok_err,
-            "the handler must build ErrorHolder('broken-runner...', error=sys.exc_info())", node=handler, fn="_run_test")
-        chk("R-BROKEN-RUNNER", "holder run against the same per-worker result", ok_run,
-            f"the broken-runner holder is not run against {res_p}", node=handler, fn="_run_test")
+def run_coordinator(ctx, clsname, stream, schedule, interrupt_at=None):
+    cls, run_f = _method(ctx, clsname, "run")
+    param = run_f.args.args[1].arg
 
-    # ---------------------------------------------------------------- coordinating run()
-    cfg = cfg_of(ctx, run_f)
-    live = live_nodes(cfg)
-    res_param = run_f.args.args[1].arg
-    # make_tests called once, its result iterated
-    mk = [n for n in walk_shallow(run_f, include_self=False) if isinstance(n, ast.Call) and dotted(n.func) == "self.make_tests"]
-    tests_var = None
-    if len(mk) == 1 and isinstance(getattr(mk[0], "_parent", None), ast.Assign):
-        t = mk[0]._parent.targets[0]
-        if isinstance(t, ast.Name):
-            tests_var = t.id
-    chk("R-RUN-ONCE", "make_tests called once", tests_var is not None, "make_tests is not called exactly once with its result kept")
-    loop = _loop_over(run_f, tests_var) if tests_var else None
-    if loop is None:
-        raise AnalysisError(f"anchor vanished: {clsname}.run has no loop over the result of make_tests")
-    # Thread construction
-    threads_new = [c for c in walk_shallow(loop) if isinstance(c, ast.Call) and dotted(c.func) in ("threading.Thread", "Thread")]
-    chk("R-RUN-ONCE", "one Thread per sub-suite", len(threads_new) == 1 and not _conditional_in(loop, threads_new[0] if threads_new else None),
-        "the loop over make_tests' result does not create exactly one Thread per element unconditionally", node=loop)
-    if len(threads_new) != 1:
-        raise AnalysisError(f"anchor vanished: {clsname}.run thread construction")
-    tcall = threads_new[0]
-    tvar = tcall._parent.targets[0].id if isinstance(getattr(tcall, "_parent", None), ast.Assign) and isinstance(tcall._parent.targets[0], ast.Name) else None
-    target = kw_value(tcall, "target")
-    targs = kw_value(tcall, "args")
-    loop_vars = [n.id for n in ast.walk(loop.target) if isinstance(n, ast.Name)]
-    ok_target = dotted(target) == "self._run_test"
-    argnames = [dotted(e) for e in targs.elts] if isinstance(targs, ast.Tuple) else []
-    chk("R-RUN-ONCE", "thread target is the worker wrapper with this sub-suite", ok_target and argnames and argnames[0] in loop_vars and len(argnames) == len(wparams),
-        f"Thread(target={norm(target)}, args={norm(targs)}) does not run self._run_test on the loop's sub-suite", node=tcall)
-    presult_var = argnames[1] if len(argnames) > 1 else None
-    # bookkeeping
-    book = None
-    book_store = None
-    for n in walk_shallow(loop):
-        if isinstance(n, ast.Assign) and isinstance(n.targets[0], ast.Subscript) and isinstance(n.value, ast.Tuple):
-            names = [dotted(e) for e in n.value.elts]
-            if tvar in names and presult_var in names:
-                book = dotted(n.targets[0].value)
-                book_store = n
-                idx_thread, idx_result = names.index(tvar), names.index(presult_var)
-    chk("R-REGISTER-BEFORE-START", "bookkeeping entry (thread, result) stored", book is not None,
-        "the loop no longer records (thread, per-worker result) for each started worker", node=loop)
-    if book is None:
-        raise AnalysisError(f"anchor vanished: {clsname}.run bookkeeping")
-    start_nodes = nodes_calling(cfg, lambda c: dotted(c.func) == f"{tvar}.start", live)
-    store_nodes = [i for i in cfg.nodes_for(book_store) if i in live]
-    chk("R-REGISTER-BEFORE-START", "start() called once per thread", len(start_nodes) == 1, f"expected one {tvar}.start() call")
-    if start_nodes:
-        chk("R-REGISTER-BEFORE-START", "entry stored before start()", cfg.dominated_by(start_nodes[0], set(store_nodes)),
-            "a worker can be started before it is registered: an abort between would leave it running un-stopped")
-        esc = cfg.escape_path(cfg.after(store_nodes[0]), set(start_nodes), targets=[n.id for n in cfg.nodes if n.kind == "for" and n.ast is loop])
-        chk("R-REGISTER-BEFORE-START", "every registered thread is started", esc is None,
-            "a registered worker may never be started: the wait loop would block for ever",
-            path=cfg.describe_path(esc) if esc else None)
-    # wait loop
-    waits = [n for n in walk_shallow(run_f, include_self=False) if isinstance(n, ast.While) and dotted(n.test) == book]
-    chk("R-JOIN-BEFORE-FORGET", "wait loop runs while bookkeeping is non-empty", len(waits) == 1,
-        f"expected one `while {book}:` wait loop")
-    if len(waits) != 1:
-        raise AnalysisError(f"anchor vanished: {clsname}.run wait loop")
-    wait = waits[0]
-    wtest = [n.id for n in cfg.nodes if n.kind == "test" and n.ast is wait and n.id in live]
-    removals = []
-    for n in walk_shallow(wait):
-        if isinstance(n, ast.Delete):
-            for t in n.targets:
-                if isinstance(t, ast.Subscript) and dotted(t.value) == book:
-                    removals.append(n)
-        if isinstance(n, ast.Call) and dotted(n.func) in (f"{book}.pop", f"{book}.popitem", f"{book}.clear"):
-            removals.append(n)
-    chk("R-JOIN-BEFORE-FORGET", "entries are forgotten inside the wait loop", len(removals) >= 1, "the wait loop never removes an entry", node=wait)
-    join_nodes = nodes_calling(cfg, lambda c: isinstance(c.func, ast.Attribute) and c.func.attr == "join", live)
-    for r in removals:
-        rnodes = [i for i in cfg.nodes_for(r) if i in live]
-        ok = False
-        if not ok:
-            # join after removal: every normal path from the removal back to the loop test passes a join
-            ok = all(cfg.escape_path(cfg.after(rn_), set(join_nodes), targets=wtest + [cfg.exit_return]) is None for rn_ in rnodes) and bool(join_nodes)
-        if not ok:
-            # join before removal within the same iteration: removal not reachable from the loop test without a join
-            seen = cfg.reach([b for w in wtest for b, k in cfg.succ[w] if k == "true"], avoid=set(join_nodes))
-            ok = bool(join_nodes) and not any(rn_ in seen for rn_ in rnodes)
-        chk("R-JOIN-BEFORE-FORGET", f"removal `{norm(r)[:50]}` paired with join()", ok,
-            "a worker can be forgotten without its thread having been joined: run() may return while it still runs", node=r)
-    # joined thread is the one of the forgotten entry
-    for jn in join_nodes:
-        for c in node_calls(cfg.nodes[jn]):
-            if isinstance(c.func, ast.Attribute) and c.func.attr == "join":
-                recv = c.func.value
-                ok = False
-                if isinstance(recv, ast.Subscript) and isinstance(recv.slice, ast.Constant) and recv.slice.value == idx_thread:
-                    ok = True
-                elif isinstance(recv, ast.Name):
-                    # local bound from entry[idx_thread]
-                    for a in walk_shallow(wait):
-                        if isinstance(a, ast.Assign) and any(dotted(t) == recv.id for t in a.targets) and isinstance(a.value, ast.Subscript) and isinstance(a.value.slice, ast.Constant) and a.value.slice.value == idx_thread:
-                            ok = True
-                chk("R-JOIN-BEFORE-FORGET", "join() is called on the thread component of the entry", ok,
-                    f"{norm(c)} is not the thread stored at position {idx_thread} of the bookkeeping entry", node=c)
+    def started(st):
+        return [e[1][0] for e in st.get("ev.calls", ()) if e[0] == "<Thread>.start"]
 
-    # abort handling
-    enclosing = [p for p in _ancestors(wait, run_f) if isinstance(p, ast.Try) and _contains_in_body(p, wait)]
-    t = enclosing[0] if enclosing else None
-    ok_scope = t is not None and _contains_in_body(t, loop)
-    chk("R-ABORT-STOPS-ALL", "thread creation and wait loop inside one try", ok_scope,
-        "the loop that starts workers (which also advances make_tests' iterator) and the wait loop are not under one try")
-    if t is not None:
-        ca = [h for h in t.handlers if handler_is_catch_all(h)]
-        chk("R-ABORT-STOPS-ALL", "handler is catch-all (bare / BaseException)", len(ca) == 1 and t.handlers[0] is ca[0],
-            f"abort handler catches {[handler_names(h) for h in t.handlers]}: KeyboardInterrupt would leave workers running", node=t)
-        if ca:
-            h = ca[0]
-            stops = False
-            for lp in walk_shallow(h):
-                if isinstance(lp, ast.For) and isinstance(lp.iter, ast.Call) and dotted(lp.iter.func) in (f"{book}.values", f"{book}.items"):
-                    tgt = lp.target
-                    if dotted(lp.iter.func).endswith(".items") and isinstance(tgt, ast.Tuple) and len(tgt.elts) == 2:
-                        tgt = tgt.elts[1]
-                    name = None
-                    if isinstance(tgt, ast.Tuple) and len(tgt.elts) > idx_result:
-                        name = dotted(tgt.elts[idx_result])
-                    for c in walk_shallow(lp):
-                        if isinstance(c, ast.Call) and isinstance(c.func, ast.Attribute) and c.func.attr == "stop":
-                            recv = c.func.value
-                            if name and dotted(recv) == name:
-                                stops = True
-                            if isinstance(recv, ast.Subscript) and isinstance(recv.slice, ast.Constant) and recv.slice.value == idx_result:
-                                stops = True
-                    if any(isinstance(x, (ast.Break, ast.Return)) for x in walk_shallow(lp)):
-                        stops = False
-            chk("R-ABORT-STOPS-ALL", "handler stops every remaining per-worker result", stops,
-                f"the abort handler does not call stop() on the result component of every entry of {book}", node=h)
-            hn = [n.id for n in cfg.nodes if n.kind == "handler" and n.ast is h and n.id in live]
-            bare = [n for n in walk_shallow(h) if isinstance(n, ast.Raise) and n.exc is None]
-            esc = cfg.escape_path(hn, set(), targets=[cfg.exit_return]) if hn else [0]
-            chk("R-ABORT-STOPS-ALL", "handler re-raises", bool(bare) and esc is None,
-                "the abort handler can complete without re-raising: the interrupt / error would be swallowed",
-                node=h, path=cfg.describe_path(esc) if esc and hn else None)
-    # pipeline
-    if not stream:
-        sems = [n for n in walk_shallow(run_f, include_self=False) if isinstance(n, ast.Call) and dotted(n.func) in ("threading.Semaphore", "Semaphore")]
-        ok = len(sems) == 1 and not _contains(loop, sems[0]) and len(sems[0].args) == 1 and isinstance(sems[0].args[0], ast.Constant) and sems[0].args[0].value == 1
-        chk("R-PIPELINE", "one Semaphore(1) shared by all workers", ok, "expected exactly one threading.Semaphore(1) created outside the loop")
-        svar = sems[0]._parent.targets[0].id if sems and isinstance(getattr(sems[0], "_parent", None), ast.Assign) else None
-        tfr = [c for c in walk_shallow(loop) if isinstance(c, ast.Call) and (dotted(c.func) or "").split(".")[-1] == "ThreadsafeForwardingResult"]
-        ok = len(tfr) == 1 and len(tfr[0].args) == 2 and dotted(tfr[0].args[0]) == res_param and dotted(tfr[0].args[1]) == svar
-        chk("R-PIPELINE", "each worker reports through ThreadsafeForwardingResult(result, shared semaphore)", ok,
-            "per-worker result is not ThreadsafeForwardingResult(<run's result>, <the shared semaphore>)", node=tfr[0] if tfr else loop)
-        # the process_result handed to the thread derives from that TFR
-        ok = False
-        for a in walk_shallow(loop):
-            if isinstance(a, ast.Assign) and dotted(a.targets[0]) == presult_var and tfr and _contains(a.value, tfr[0]):
-                ok = True
-        chk("R-PIPELINE", "thread receives the thread-safe result", ok, f"{presult_var} is not built from the ThreadsafeForwardingResult")
-        # completion event comes from the queue the workers signal on
-        qs = [n for n in walk_shallow(run_f, include_self=False) if isinstance(n, ast.Call) and dotted(n.func) in ("Queue", "queue.Queue")]
-        qvar = qs[0]._parent.targets[0].id if len(qs) == 1 and isinstance(getattr(qs[0], "_parent", None), ast.Assign) else None
-        ok = qvar is not None and not _contains(loop, qs[0]) and qvar in argnames
-        chk("R-PIPELINE", "one completion queue shared with every worker", ok, "completion queue not shared with the workers")
-        gets = [c for c in walk_shallow(wait) if isinstance(c, ast.Call) and dotted(c.func) == f"{qvar}.get"]
-        chk("R-PIPELINE", "wait loop blocks on the completion queue", len(gets) == 1, "the wait loop does not block on the completion queue", node=wait)
-    else:
-        qs = [n for n in walk_shallow(run_f, include_self=False) if isinstance(n, ast.Call) and dotted(n.func) in ("Queue", "queue.Queue")]
-        qvar = qs[0]._parent.targets[0].id if len(qs) == 1 and isinstance(getattr(qs[0], "_parent", None), ast.Assign) else None
-        chk("R-PIPELINE", "one event queue shared by all workers", qvar is not None and not _contains(loop, qs[0]), "expected one Queue() created outside the loop")
-        stq = [c for c in walk_shallow(loop) if isinstance(c, ast.Call) and (dotted(c.func) or "").split(".")[-1] == "StreamToQueue"]
-        ok = len(stq) == 1 and len(stq[0].args) == 2 and dotted(stq[0].args[0]) == qvar and dotted(stq[0].args[1]) in loop_vars
-        chk("R-PIPELINE", "per-worker StreamToQueue(queue, that worker's route code)", ok, "StreamToQueue is not built from the shared queue and the loop's route code", node=stq[0] if stq else loop)
-        stq_var = stq[0]._parent.targets[0].id if stq and isinstance(getattr(stq[0], "_parent", None), ast.Assign) else None
-        ok = False
-        for a in walk_shallow(loop):
-            if isinstance(a, ast.Assign) and dotted(a.targets[0]) == presult_var:
-                v = a.value
-                if isinstance(v, ast.Call) and (dotted(v.func) or "").split(".")[-1] == "ExtendedToStreamDecorator" and len(v.args) == 1:
-                    inner = v.args[0]
-                    if isinstance(inner, ast.Call) and (dotted(inner.func) or "").split(".")[-1] == "TimestampingStreamResult" and len(inner.args) == 1:
-                        if dotted(inner.args[0]) == stq_var or inner.args[0] is (stq[0] if stq else None):
-                            ok = True
-        chk("R-PIPELINE", "per-worker pipeline ExtendedToStream(Timestamping(StreamToQueue))", ok,
-            "per-worker result is not ExtendedToStreamDecorator(TimestampingStreamResult(<that worker's StreamToQueue>))")
-        # bookkeeping key is the StreamToQueue (what stopTestRun events carry as 'result')
-        key_ok = isinstance(book_store.targets[0], ast.Subscript) and dotted(book_store.targets[0].slice) == stq_var
-        chk("R-PIPELINE", "bookkeeping keyed by the worker's StreamToQueue", key_ok, "bookkeeping key is not the object that stopTestRun events carry")
-        gets = [c for c in walk_shallow(wait) if isinstance(c, ast.Call) and dotted(c.func) == f"{qvar}.get"]
-        evar = gets[0]._parent.targets[0].id if len(gets) == 1 and isinstance(getattr(gets[0], "_parent", None), ast.Assign) else None
-        chk("R-PIPELINE", "wait loop dequeues one event per iteration", evar is not None, "the wait loop does not dequeue events from the shared queue", node=wait)
-        # dispatch
-        kind_var = None
-        for a in walk_shallow(wait):
-            if isinstance(a, ast.Assign) and isinstance(a.value, ast.Call) and dotted(a.value.func) == f"{evar}.pop" and a.value.args and isinstance(a.value.args[0], ast.Constant) and a.value.args[0].value == "event":
-                kind_var = a.targets[0].id if isinstance(a.targets[0], ast.Name) else None
-        chk("R-PIPELINE", "event kind popped from the event dict", kind_var is not None, "the event kind is not removed from the dict before it is forwarded (status() would get an unexpected 'event' keyword)")
-        arms = {}
-        else_raises = False
-        node = None
-        for n in wait.body:
-            if isinstance(n, ast.If):
-                node = n
-        cur = node
-        while isinstance(cur, ast.If):
-            tst = cur.test
-            if isinstance(tst, ast.Compare) and dotted(tst.left) == kind_var and len(tst.ops) == 1 and isinstance(tst.ops[0], ast.Eq) and isinstance(tst.comparators[0], ast.Constant):
-                arms[tst.comparators[0].value] = cur.body
-            if len(cur.orelse) == 1 and isinstance(cur.orelse[0], ast.If):
-                cur = cur.orelse[0]
+    def oracle(n, pos, kw, st):
+        log = st.get("ev.calls", ())
+        if interrupt_at is not None and len(log) == interrupt_at and n.startswith("<"):
+            return [("exc", INTERRUPT, "interrupt")]
+        if n == "<Queue>.get":
+            k = sum(1 for e in log if e[0] == "<Queue>.get")
+            if k >= len(schedule):
+                return [("exc", ("exc", "Deadlock"), "deadlock")]
+            ev = schedule[k]
+            th = started(st)
+            if ev[1] >= len(th):
+                return [("exc", ("exc", "ModelError"), "model")]
+            _, args = _thread_parts(th[ev[1]])
+            if not stream:
+                return [("val", args[0] if args else ("sym", "?"))]
+            stq = _find_new(th[ev[1]], "StreamToQueue")
+            if ev[0] == "status":
+                return [("val", _status_event(ev[1], ev[2]))]
+            if ev[0] == "unknown":
+                return [("val", ("kwdict", (("event", ("const", "progress")),)))]
+            return [("val", ("kwdict", (("event", ("const", "startTestRun" if ev[0] == "start" else "stopTestRun")), ("result", stq if stq is not None else ("sym", "?")))))]
+        if n.startswith(("<", "res.")):
+            return [("val", NONE)]
+        return None
+
+    tests = ("tuple", ("tuple", A, RC_A), ("tuple", B, RC_B)) if stream else ("tuple", A, B)
+    dom = effects.EffectDomain(ctx.classes, attrs={"self": ("self",), "self._run_test": WORKER}, results={"self.make_tests": [tests]}, oracle=oracle,
+                               ctors=CTORS, log_cap=40)
+    dom.oracle_state = True
+    dom.unique_ctors = True
+    res = effects.run(ctx, dom, run_f, cls, {param: RESULT}, state=State(), depth=5)
+    return run_f, res
+
+
+def check_coordinator(ctx, clsname, stream):
+    Qn = f"{TESTSUITE}:{clsname}.run"
+    schedules = STREAM_SCHEDULES if stream else PLAIN_SCHEDULES
+    elements = [A, B]
+    run_once, join, pipeline, forward = set(), set(), set(), set()
+    examined = 0
+    run_f = None
+    n_ext = 0
+    for sched in schedules:
+        run_f, res = run_coordinator(ctx, clsname, stream, sched)
+        examined += len(res)
+        if not res:
+            join.add("no path of run() could be followed")
+        for r in res:
+            log = r.state.get("ev.calls", ())
+            n_ext = max(n_ext, len(log))
+            if r.state.get("ev.calls.overflow", 0):
+                raise AnalysisError(f"{clsname}.run: the call log of the abstract run overflowed")
+            tags = [e[3] for e in log]
+            if "model" in tags:
+                pipeline.add("the model could not identify the worker threads (Thread objects are not started through start())")
+                continue
+            if r.kind == "exc":
+                if "deadlock" in tags:
+                    join.add(f"with worker events {sched} run() waits for a further event after every worker has signalled completion: it blocks for ever")
+                else:
+                    join.add(f"with worker events {sched} run() raises {r.value!r}")
+                continue
+            th = [e[1][0] for e in log if e[0] == "<Thread>.start"]
+            # one thread per sub-suite, running the worker wrapper on it
+            parts = [_thread_parts(t) for t in th]
+            got = [p[1][0] if p[1] else None for p in parts]
+            if got != elements:
+                run_once.add(f"threads are started for {got}; expected one per sub-suite of make_tests, {elements}")
+            if len(set(th)) != len(th):
+                run_once.add("a thread object is started twice")
+            for t, (target, args) in zip(th, parts):
+                if target != WORKER:
+                    run_once.add(f"a thread's target is {target!r}, not the worker wrapper self._run_test")
+                if args is None or len(args) != 3:
+                    run_once.add("a thread is not given (sub-suite, per-worker result, queue / route code)")
+            # every started thread is joined before run() returns
+            joined = [e[1][0] for e in log if e[0] == "<Thread>.join"]
+            for t in th:
+                if t not in joined:
+                    join.add(f"with worker events {sched} run() returns although a started thread was never joined: its last results may still be in flight")
+            for t in joined:
+                if t not in th:
+                    join.add("join() is called on something that is not a started worker thread")
+            gets = [e for e in log if e[0] == "<Queue>.get"]
+            if len(gets) != len(sched):
+                join.add(f"with worker events {sched} run() returns after {len(gets)} of {len(sched)} events: events still queued are never delivered")
+            # pipeline
+            queues = {e[1][0] for e in gets}
+            if len(queues) != 1:
+                pipeline.add("run() does not wait on exactly one queue")
+            for i, (t, (target, args)) in enumerate(zip(th, parts)):
+                if args is None or len(args) != 3:
+                    continue
+                pres = args[1]
+                if not stream:
+                    want_inner = lambda v: _is_new(v, "ThreadsafeForwardingResult") and v[2][:1] == (RESULT,) and len(v[2]) == 2 and _is_new(v[2][1], "Semaphore") and v[2][1][2] == (("const", 1),)
+                    if not (_is_new(pres, "_wrap_result") and len(pres[2]) == 2 and want_inner(pres[2][0]) and pres[2][1] == ("const", i)):
+                        pipeline.add(f"worker {i} reports through {_short(pres)}; expected self._wrap_result(ThreadsafeForwardingResult(result, Semaphore(1)), {i})")
+                    if args[2] not in queues:
+                        pipeline.add("a worker is given a queue that run() does not wait on")
+                else:
+                    stq = pres[2][0][2][0] if (_is_new(pres, "ExtendedToStreamDecorator") and len(pres[2]) == 1 and _is_new(pres[2][0], "TimestampingStreamResult") and len(pres[2][0][2]) == 1) else None
+                    rc = (RC_A, RC_B)[i] if i < 2 else None
+                    if not (_is_new(stq, "StreamToQueue") and len(stq[2]) == 2 and stq[2][0] in queues and stq[2][1] == rc):
+                        pipeline.add(f"worker {i} reports through {_short(pres)}; expected ExtendedToStreamDecorator(TimestampingStreamResult(StreamToQueue(<the queue run() reads>, <its route code>)))")
+                    if args[2] != rc:
+                        pipeline.add("a worker thread does not receive its own route code")
+            if not stream:
+                sems = {_find_new(t, "Semaphore") for t in th}
+                if len(sems) != 1:
+                    pipeline.add("the workers do not share one semaphore: their results would interleave in the target")
             else:
-                else_raises = any(isinstance(x, ast.Raise) for s in cur.orelse for x in walk_shallow(s))
-                cur = None
-        fwd = False
-        for s in arms.get("status", []):
-            for c in walk_shallow(s):
-                if isinstance(c, ast.Call) and dotted(c.func) == f"{res_param}.status" and not c.args and len(c.keywords) == 1 and c.keywords[0].arg is None and dotted(c.keywords[0].value) == evar:
-                    fwd = True
-        chk("R-PIPELINE", "status events forwarded unchanged to the caller's result", fwd,
-            f"the 'status' arm does not call {res_param}.status(**{evar})")
-        stop_arm = arms.get("stopTestRun", [])
-        rem_in_stop = all(any(_contains(s, r) for s in stop_arm) for r in removals) and bool(removals)
-        chk("R-PIPELINE", "a worker is forgotten only on its own stopTestRun event", rem_in_stop,
-            "bookkeeping entries are removed outside the 'stopTestRun' arm: later events of that worker could be dropped")
-        key_from_event = any(isinstance(x, ast.Subscript) and dotted(x.value) == evar and isinstance(x.slice, ast.Constant) and x.slice.value == "result" for s in stop_arm for x in ast.walk(s))
-        chk("R-PIPELINE", "forgotten worker identified by the event's 'result'", key_from_event, "the stopTestRun arm does not use the event's 'result' key")
-        chk("R-PIPELINE", "unknown events rejected", else_raises, "unknown event kinds are silently ignored")
-        chk("R-PIPELINE", "startTestRun events are filtered", "startTestRun" in arms and not any(isinstance(x, ast.Call) for s in arms.get("startTestRun", []) for x in walk_shallow(s)),
-            "startTestRun events from workers must not be forwarded (the caller owns startTestRun)")
-    return cls
+                want = [tuple((k, v) for k, v in _status_event(ev[1], ev[2])[1] if k != "event") for ev in sched if ev[0] == "status"]
+                sent = [e for e in log if e[0] == "res.status"]
+                if [tuple(e[2]) for e in sent] != want or any(e[1] for e in sent):
+                    forward.add(f"with worker events {sched} the caller's result receives {len(sent)} status events {[dict(e[2]).get('test_id') for e in sent]}; expected the {len(want)} dequeued ones, unchanged, in dequeue order")
+                other = [e[0] for e in log if e[0].startswith("res.") and e[0] != "res.status"]
+                if other:
+                    forward.add(f"run() calls {sorted(set(other))} on the caller's result (workers' startTestRun / stopTestRun must not be forwarded: the caller owns them)")
+
+    def chk(rule, name, problems, n=examined):
+        ctx.check(rule, f"{clsname}.run: {name}", run_f, not problems, "; ".join(sorted(problems)), examined=n, construct=f"{Qn}::{name}")
+
+    chk("R-RUN-ONCE", "one started Thread per sub-suite, running the worker wrapper on it", run_once)
+    chk("R-JOIN-BEFORE-FORGET", "run() returns only after every started thread was joined and every event consumed; it never waits for an event that cannot come", join)
+    chk("R-PIPELINE", "per-worker reporting pipeline over one shared queue" + ("" if stream else " and one shared Semaphore(1)"), pipeline)
+    if stream:
+        chk("R-PIPELINE", "status events forwarded unchanged in dequeue order; startTestRun / stopTestRun events are not forwarded", forward)
+        # a worker is forgotten only on its own stopTestRun: worker 0 stops first, worker 1's later events still arrive
+        sched = [("start", 0), ("start", 1), ("stop", 0), ("status", 1, 1), ("status", 1, 2), ("stop", 1)]
+        _, res = run_coordinator(ctx, clsname, stream, sched)
+        problems = set()
+        for r in res:
+            log = r.state.get("ev.calls", ())
+            sent = [dict(e[2]).get("test_id") for e in log if e[0] == "res.status"]
+            joins = [i for i, e in enumerate(log) if e[0] == "<Thread>.join"]
+            th = [e[1][0] for e in log if e[0] == "<Thread>.start"]
+            if r.kind != "val" or sent != [("sym", "id-1-1"), ("sym", "id-1-2")]:
+                problems.add(f"after worker 0 stopped, worker 1's events are delivered as {sent} (outcome {r.kind})")
+            elif len(joins) != 2 or [log[i][1][0] for i in joins] != [th[0], th[1]]:
+                problems.add("the thread joined on a stopTestRun event is not the one of the worker that sent it")
+            else:
+                gets = [i for i, e in enumerate(log) if e[0] == "<Queue>.get"]
+                if not (gets[2] < joins[0] < gets[3]):
+                    problems.add("a worker is not joined when its own stopTestRun event arrives")
+        chk("R-PIPELINE", "a worker is forgotten (and joined) only on its own stopTestRun event", problems, len(res))
+        # unknown events are rejected -- and rejecting them aborts the run like any other error
+        _, res = run_coordinator(ctx, clsname, stream, [("start", 0), ("unknown", 0), ("stop", 0), ("stop", 1)])
+        problems = set()
+        for r in res:
+            if not (r.kind == "exc" and r.value[:2] == ("exc", "ValueError")):
+                problems.add(f"an event of unknown kind is not rejected with ValueError (outcome {r.kind} {r.value if r.kind == 'exc' else ''})")
+        chk("R-PIPELINE", "unknown events rejected", problems, len(res))
+
+    # an interrupt at each external call of each schedule
+    abort, register, swallowed = set(), set(), set()
+    n_runs = 0
+    for sched in schedules[:2]:
+        for k in range(n_ext + 1):
+            _, res = run_coordinator(ctx, clsname, stream, sched, interrupt_at=k)
+            for r in res:
+                log = r.state.get("ev.calls", ())
+                hit = [i for i, e in enumerate(log) if e[3] == "interrupt"]
+                if not hit:
+                    continue
+                n_runs += 1
+                at = log[hit[0]]
+                where = f"an interrupt during {at[0].strip('<>').replace('>', '')} (external call #{k}, worker events {sched})"
+                if not (r.kind == "exc" and r.value == INTERRUPT):
+                    swallowed.add(f"{where} does not propagate out of run() (outcome: {r.kind} {r.value if r.kind == 'exc' else ''})")
+                before, after = log[: hit[0] + 1], log[hit[0] + 1:]
+                th = [e[1][0] for e in before if e[0] == "<Thread>.start"]
+                done = [e[1][0] for e in before if e[0] == "<Thread>.join" and e[3] == "ok"]
+                stopped = [e[1][0] for e in after if e[0].endswith(".stop")]
+                consumed = sched[: sum(1 for e in before if e[0] == "<Queue>.get" and e[3] == "ok")]
+                finished = {ev[1] for ev in consumed if ev[0] in ("done", "stop")}   # these workers have signalled completion: nothing left to stop
+                for wi, t in enumerate(th):
+                    _, args = _thread_parts(t)
+                    pres = args[1] if args and len(args) > 1 else None
+                    if t in done or wi in finished:
+                        continue
+                    if pres not in stopped:
+                        if at[0] == "<Thread>.start" and at[1][0] == t:
+                            register.add(f"{where}: the thread being started is not yet registered, so the abort handler cannot tell its worker to stop")
+                        else:
+                            abort.add(f"{where}: a worker that was started and has not finished is not told to stop")
+    if n_runs < 4:
+        raise AnalysisError(f"{clsname}.run: the interrupt scenarios did not reach the external calls (model broken?)")
+    chk("R-REGISTER-BEFORE-START", "a worker is registered before its thread is started", register, n_runs)
+    chk("R-ABORT-STOPS-ALL", "on an interrupt every worker that was started and has not signalled completion is told to stop", abort, n_runs)
+    chk("R-ABORT-STOPS-ALL", "the interrupt propagates out of run()", swallowed, n_runs)
 
 
-def _ancestors(node, stop):
-    out = []
-    n = getattr(node, "_parent", None)
-    while n is not None and n is not stop:
-        out.append(n)
-        n = getattr(n, "_parent", None)
-    return out
-
-
-def _contains_in_body(trynode, node):
-    return any(_contains(s, node) for s in trynode.body)
-
-
-def _conditional_in(loop, node):
-    if node is None:
-        return True
-    return any(isinstance(p, (ast.If, ast.Try, ast.While)) for p in _ancestors(node, loop))
+def _short(v, depth=0):
+    if _is_new(v):
+        return f"{v[1]}({', '.join(_short(x, depth + 1) for x in v[2])})" if depth < 4 else v[1] + "(...)"
+    if isinstance(v, tuple) and v[:1] == ("const",):
+        return repr(v[1])
+    if isinstance(v, tuple) and v[:1] in (("wobj",), ("sym",)):
+        return f"<{v[1]}>"
+    return "?"
 
 
 def run(ctx):
@@ -382,15 +385,18 @@ def run(ctx):
     ctx.rule("R-BROKEN-RUNNER", "a crashing sub-suite is reported as an errored broken-runner test")
     ctx.rule("R-RUN-ONCE", "each sub-suite of make_tests is run exactly once in its own thread")
     ctx.rule("R-REGISTER-BEFORE-START", "bookkeeping entry stored before the thread is started")
-    ctx.rule("R-JOIN-BEFORE-FORGET", "wait loop runs until bookkeeping is empty; an entry is forgotten only with join()")
-    ctx.rule("R-ABORT-STOPS-ALL", "catch-all abort handler stops every started worker and re-raises")
+    ctx.rule("R-JOIN-BEFORE-FORGET", "run() ends only when every started worker was joined; it never waits for more completions than there are workers")
+    ctx.rule("R-ABORT-STOPS-ALL", "an abort stops every started worker and re-raises")
     ctx.rule("R-PIPELINE", "per-worker reporting pipeline and event forwarding are as documented")
-    check_suite(ctx, "ConcurrentTestSuite", stream=False)
-    check_suite(ctx, "ConcurrentStreamTestSuite", stream=True)
+    for clsname, stream in (("ConcurrentTestSuite", False), ("ConcurrentStreamTestSuite", True)):
+        check_worker(ctx, clsname, stream)
+        check_coordinator(ctx, clsname, stream)
     ctx.floor("R-WORKER-SIGNAL", 4)
-    ctx.floor("R-BROKEN-RUNNER", 6)
-    ctx.floor("R-JOIN-BEFORE-FORGET", 8)
-    ctx.floor("R-ABORT-STOPS-ALL", 8)
+    ctx.floor("R-BROKEN-RUNNER", 8)
+    ctx.floor("R-JOIN-BEFORE-FORGET", 2)
+    ctx.floor("R-ABORT-STOPS-ALL", 4)
+    ctx.floor("R-PIPELINE", 5)
     ctx.note("frozen exception: process_result.startTestRun() precedes the try in ConcurrentStreamTestSuite._run_test "
              "(it only reaches Queue.put on an unbounded queue; the property speaks of the sub-suite's run() raising)")
-    ctx.assume("Thread.join() returns only when the worker function has returned; Queue is unbounded and thread-safe")
+    ctx.assume("Thread.join() returns only when the worker function has returned; Queue is unbounded and thread-safe; "
+               "make_tests yields its sub-suites without raising (an iterator that raises mid-way is the abort path with fewer workers)")
